@@ -1,6 +1,6 @@
 (* C14 — property theorems only: each closed by [exact] of a lemma proved in Values/GateProofs.v. *)
 From Coq Require Import List String Bool Arith ZArith.
-From Helm Require Import Common.Strs Values.Tree Values.Schema2 Values.Schema2Proofs Values.Schema Values.Scope Values.Deps
+From Helm Require Import Common.Strs Values.Tree Values.Schema2 Values.Schema2Proofs Values.Schema2Total Values.Schema Values.Scope Values.Deps
   Values.Gate Values.GateProofs Gen.C14Compiler.
 Import ListNotations.
 Local Open Scope string_scope.
@@ -464,3 +464,16 @@ Example C14_code_points :
   /\ rune_count "abc" = 3%nat /\ rune_count "" = 0%nat.
 Proof. exact rune_count_examples. Qed.
 Print Assumptions C14_code_points.
+
+(* The document evaluator always reaches a verdict: the fuel it starts with ((size of the document
+   + 2) * (depth of the values + 3)) is never exhausted - on one value every schema location is
+   entered at most once (the library's cycle check), and a step to a member shrinks the value.
+   So [valid (SDoc d) v = false] means: a constraint is violated, the schema does not compile, or
+   the document is outside the modelled keyword family. *)
+Theorem C14_never_out_of_fuel : forall doc v, doc_verdict doc v <> VFuel.
+Proof. exact doc_verdict_never_out_of_fuel. Qed.
+Print Assumptions C14_never_out_of_fuel.
+
+Theorem C14_run_never_out_of_fuel : forall dl doc v, run_with dl doc v <> VFuel.
+Proof. exact run_never_out_of_fuel. Qed.
+Print Assumptions C14_run_never_out_of_fuel.
